@@ -471,3 +471,74 @@ Theorem C15_loaded_program_no_panic : forall O schema, oracle_sane O -> forall l
   length (fst (run_records O ts cs rs)) = length rs.
 Proof. exact load_no_panic. Qed.
 Print Assumptions C15_loaded_program_no_panic.
+
+(* ---- wave-4 follow-up: empty captures of extract, sampled drop on streams of any length ---- *)
+From SV Require Import Model.TfDropLong Model.TfExtractCap Proofs.Wave4Proofs.
+Open Scope Z_scope.
+
+(* the skip test of the code is the parameterised loop with skip_go *)
+Theorem C15_extract_loop_is_skip_go : forall locs idx v r,
+  run_extractre_loop_by skip_go locs idx v r = run_extractre_loop locs idx v r.
+Proof. exact extract_loop_by_go. Qed.
+Print Assumptions C15_extract_loop_is_skip_go.
+
+(* a named group with any of its three outcomes (not part of the match | part of it with "" | part of it with a
+   text): the field is untouched, becomes "", becomes the text *)
+Theorem C15_extract_capture_overrides : forall l locs' c idx (v : bytes) r0, cap_in v c ->
+  run_extractre_loop (Some l :: locs') (cap_pair c :: idx) v r0 =
+  run_extractre_loop locs' idx v (cap_apply c l r0).
+Proof. exact extract_capture_step. Qed.
+Print Assumptions C15_extract_capture_overrides.
+
+(* the transform with one named group, for every regexp oracle: whenever the group took part the destination
+   field afterwards IS the capture (also the empty one); otherwise it is what it was; no other field changes *)
+Theorem C15_extract_field_is_capture : forall O loc pat l r a0 b0 c,
+  o_re_find O pat (getf r loc) = Some [(a0, b0); cap_pair c] -> cap_in (getf r loc) c ->
+  (l < nfields r)%nat ->
+  exists r', run_extractre O loc pat [None; Some l] r = Ok r' /\
+    getf r' l = match c with CapNone => getf r l | CapEmpty _ => [] | CapText _ s => s end /\
+    (forall l', l' <> l -> getf r' l' = getf r l').
+Proof. exact extract_single_group_field. Qed.
+Print Assumptions C15_extract_field_is_capture.
+
+(* the variant "skip the group when end <= start" keeps a stale value: value "-42", empty capture at 0, field "main" *)
+Theorem C15_extract_empty_skip_variant_refuted :
+  exists l idx v r0 c, cap_in v c /\ c = CapEmpty 0 /\ idx = [cap_pair c] /\
+    run_extractre_loop [Some l] idx v r0 = Ok (set_field r0 l []) /\
+    run_extractre_loop_by skip_empty [Some l] idx v r0 = Ok r0 /\
+    getf r0 l <> [].
+Proof. exact extract_empty_skip_variant_refuted. Qed.
+Print Assumptions C15_extract_empty_skip_variant_refuted.
+
+(* the counter step of Model/TfDropLong.v is the drop node of the interpreter *)
+Theorem C15_drop_counters_step_is_model : forall m rate label matched dropped cs rawlen,
+  run_drop_matched m rate label matched dropped cs rawlen =
+  (let '(st', b) := drop_counters_step no_scale rate (matched, dropped) in
+   (TDrop m rate label (fst st') (snd st'),
+    cnt_add cs (if b then label else (33%N :: label)) 1 rawlen, negb b)).
+Proof. exact drop_counters_step_is_model. Qed.
+Print Assumptions C15_drop_counters_step_is_model.
+
+(* n matched records through one node, for EVERY n : N (no bound; every prefix of a stream is such an n): the node's
+   counters are the true counts, and the dropped count is within one record of rate % *)
+Theorem C15_drop_counters_within_one_any_length : forall rate n, 1 <= rate <= 99 ->
+  let s := sample_run no_scale rate n in
+  fst s = snd s /\ fst (snd s) = Z.of_N n /\
+  0 <= snd (snd s) <= fst (snd s) /\ Z.abs (100 * snd (snd s) - rate * fst (snd s)) <= 100.
+Proof. exact sample_run_within_one. Qed.
+Print Assumptions C15_drop_counters_within_one_any_length.
+
+(* the rule-defined long stream of case kind 3 (unmatched records in between, any rule, any length, rate 1..100) *)
+Theorem C15_drop_long_stream_within_one : forall rate n a b q u every, 1 <= rate <= 100 ->
+  let s := long_run no_scale rate n a b q u every in
+  0 <= l_D s <= l_M s /\ Z.abs (100 * l_D s - rate * l_M s) <= 100.
+Proof. exact long_run_within_one. Qed.
+Print Assumptions C15_drop_long_stream_within_one.
+
+(* samplingWindow = 2^16 with both counters halved: 33 %, 65539 matched records -> more than one record off *)
+Theorem C15_drop_window_halving_variant_refuted :
+  exists rate n, 1 <= rate <= 99 /\
+    let s := sample_run (halve_at 65536) rate n in
+    Z.abs (100 * snd (snd s) - rate * fst (snd s)) > 100.
+Proof. exact drop_window_halving_variant_refuted. Qed.
+Print Assumptions C15_drop_window_halving_variant_refuted.
